@@ -1486,6 +1486,11 @@ mod root {
         /// name hash for them; a manifest may consist of such records only)
         #[serde(default)]
         pub plain_unnamed: bool,
+        /// the records inserted with a path carry NO_NAME_HASH (their block stores no hashes) and
+        /// the records without a path do not (an ordinary block without a single named file): names
+        /// are not lookup keys here, FileDataIDs are
+        #[serde(default)]
+        pub named_in_nohash_block: bool,
     }
 
     pub fn shards(tier: Tier) -> Vec<Shard> {
@@ -1495,12 +1500,15 @@ mod root {
                 for layout in 0..4u8 {
                     // record counts 0..=130, split into ranges only to balance the worker threads
                     for (nlo, nhi) in [(0u32, 39u32), (40, 69), (70, 89), (90, 104), (105, 118), (119, 130)] {
-                        v.push(Shard { ver, groups, layout, nlo, nhi, all_named: tier == Tier::Thorough, plain_unnamed: false });
+                        v.push(Shard { ver, groups, layout, nlo, nhi, all_named: tier == Tier::Thorough, plain_unnamed: false, named_in_nohash_block: false });
                     }
                     // the same without NO_NAME_HASH on the unnamed records (quick: two FDID layouts)
                     if tier == Tier::Thorough || layout == 0 || layout == 3 {
                         for (nlo, nhi) in [(0u32, 69u32), (70, 104), (105, 130)] {
-                            v.push(Shard { ver, groups, layout, nlo, nhi, all_named: tier == Tier::Thorough, plain_unnamed: true });
+                            v.push(Shard { ver, groups, layout, nlo, nhi, all_named: tier == Tier::Thorough, plain_unnamed: true, named_in_nohash_block: false });
+                        }
+                        for (nlo, nhi) in [(0u32, 40u32), (41, 69)] {
+                            v.push(Shard { ver, groups, layout, nlo, nhi, all_named: tier == Tier::Thorough, plain_unnamed: true, named_in_nohash_block: true });
                         }
                     }
                 }
@@ -1568,6 +1576,9 @@ mod root {
                     ckey = [0xFFu8; 16];
                 }
                 let path = named.then(|| path_of(fdid));
+                if sh.named_in_nohash_block {
+                    return Rec { fdid, loc: LOCS[(i % g) as usize], cf: unnamed_flags(!named), ckey, hash: None, path };
+                }
                 Rec {
                     fdid,
                     loc: LOCS[(i % g) as usize],
@@ -1619,7 +1630,7 @@ mod root {
                 "files={n},named={k},locales={},layout={}{}{}",
                 sh.groups,
                 sh.layout,
-                if sh.plain_unnamed { ",unnamed-without-NO_NAME_HASH" } else { "" },
+                if sh.named_in_nohash_block { ",paths-only-in-NO_NAME_HASH-blocks" } else if sh.plain_unnamed { ",unnamed-without-NO_NAME_HASH" } else { "" },
                 match remove {
                     None => String::new(),
                     Some(r) => format!(",then-remove_file(record {})", if r == 0 { "first" } else if r == n - 1 { "last" } else { "middle" }),
@@ -1688,7 +1699,7 @@ mod root {
                         (3, RootHeader::V3V4 { version: 3, .. }) | (4, RootHeader::V3V4 { version: 4, .. }) => true,
                         _ => false,
                     };
-                    kind_ok && h.total_files() == n && h.named_files() == k.min(n) && h.version() == version(sh.ver)
+                    kind_ok && h.total_files() == n && (sh.named_in_nohash_block || h.named_files() == k.min(n)) && h.version() == version(sh.ver)
                 }
                 _ => false,
             };
@@ -1737,7 +1748,7 @@ mod root {
                 Some(l) => {
                     // V1 always stores a name hash: not compared for records inserted without a name
                     // (nor for records inserted without a name but without NO_NAME_HASH: the writer stores a hash for them)
-                    let name_ok = |h: Option<u64>| if (sh.ver == 1 || sh.plain_unnamed) && r.hash.is_none() { true } else { h == r.hash };
+                    let name_ok = |h: Option<u64>| if (sh.ver == 1 || sh.plain_unnamed || sh.named_in_nohash_block) && r.hash.is_none() { true } else { h == r.hash };
                     if l.len() != 1 || l[0].0 != r.cf || l[0].1 != r.ckey || !name_ok(l[0].2) {
                         ok = false;
                         cx.report(agg, "parse", "wrong-value", &lbl, || format!("FileDataID {} locale {:#x}: parsed (flags, ckey, name hash) {:x?}, inserted ({:#x}, {}, {:x?})", r.fdid, r.loc, l, r.cf, hx(&r.ckey), r.hash));
@@ -1841,7 +1852,9 @@ mod root {
             // by hash / by path: every record's path (named or not), in three spellings
             let mut seen_p = BTreeSet::new();
             for (i, r) in recs.iter().enumerate() {
-                if !seen_p.insert(r.fdid) {
+                // (paths handed in together with NO_NAME_HASH are no lookup keys: the flag says
+                // that their hash is not stored, V1 stores it all the same — not judged)
+                if sh.named_in_nohash_block || !seen_p.insert(r.fdid) {
                     continue;
                 }
                 let p = path_of(r.fdid);
